@@ -162,6 +162,47 @@ def random_case(r, stats, nops=None, big_time=True, slots=False):
     return header(plen, files, done, seed, dslots) + " | " + " ".join(ops)
 
 
+def priority_mid_case(r, stats):
+    """Mid-session priority changes against non-seeders whose per-peer piece cache is filled (bitfield / HAVEs before the change)."""
+    plen, files = r.choice([(32768, [30000, 30000, 30000, 30000, 30000, 500000]), (16384, [16384, 16384, 16384, 16384, 327680]),
+                            (32768, [100000, 200000, 150000]), (16384, [16384 * 9 + 1, 16384 * 12])])
+    n = npieces(plen, files)
+    nf = len(files)
+    npeers = r.choice([1, 1, 2])
+    ops = []
+    for p in range(npeers):
+        bits = ["1" if r.random() < 0.85 else "0" for _ in range(n)]
+        bits[r.randrange(n)] = "0"                      # never a seeder: seeders use the shared queue, not the per-peer cache
+        if r.random() < 0.3:
+            late = [i for i in range(n) if bits[i] == "1" and r.random() < 0.4]
+            for i in late:
+                bits[i] = "0"
+            ops.append("J:%d:%s" % (p, "".join(bits)))
+            ops.append("U:%d" % p)
+            ops.append("P:%d:0" % p)
+            ops += ["H:%d:%d" % (p, i) for i in late]     # HAVEs insert into the enabled cache
+        else:
+            ops.append("J:%d:%s" % (p, "".join(bits)))
+            ops.append("U:%d" % p)
+    for _ in range(r.choice([1, 2, 3, 5])):
+        ops.append("P:%d:0" % r.randrange(npeers))
+    big = max(range(nf), key=lambda f: files[f])
+    ops.append("W:%d:0" % (big if r.random() < 0.7 else r.randrange(nf)))
+    if r.random() < 0.3:
+        ops.append("W:%d:0" % r.randrange(nf))
+    for _ in range(r.choice([6, 10, 14])):
+        ops.append("P:%d:%d" % (r.randrange(npeers), r.choice([0, 0, 1])))
+    if r.random() < 0.4:
+        ops.append("W:%d:%d" % (big, r.choice([1, 2])))
+        for _ in range(4):
+            ops.append("P:%d:0" % r.randrange(npeers))
+    ops.append("A:31")
+    q = r.randrange(npeers)
+    ops.append("Q:%d" % q)
+    stats["priority_mid_download"] = stats.get("priority_mid_download", 0) + 1
+    return header(plen, files, "0" * n, r.randrange(1, 1 << 16)) + " | " + " ".join(ops)
+
+
 def hand_cases():
     H = []
     z10 = "0" * 10
@@ -232,6 +273,10 @@ def hand_cases():
     # then announces a wanted piece: the unchoke must not have been forgotten
     H.append(h("J:0:- U:0 K:0 U:0 H:0:3 A:31 Q:0"))
     H.append(h("J:0:- U:0 A:3 K:0 A:12 U:0 A:12 H:0:3 H:0:4 A:31 P:0:0 A:31 Q:0"))
+    # a file is switched off IN THE MIDDLE of a download while an interested, unchoked NON-seeder has candidate pieces of that file
+    # cached (PeerChunks::download_cache): update_priorities must flush those caches, no NEW piece of the file may be started
+    H.append(h("J:0:0%s U:0 P:0:0 P:0:0 W:5:0 %s A:31 Q:0" % ("1" * (npieces(*many) - 1), " ".join(["P:0:0"] * 10)), many))
+    H.append(header(16384, [16384, 16384, 16384, 16384, 327680], "0" * 24, 5) + " | J:0:011111111111111111111110 U:0 P:0:0 W:4:0 " + " ".join(["P:0:0"] * 7) + " A:31 Q:0")
     # four peers
     H.append(h("J:0:1111100000 J:1:0000011111 J:2:1111111111 J:3:- U:0 U:1 U:2 U:3 P:0:0 P:1:0 P:2:0 K:2 P:0:0 X:1 A:8 U:2 H:3:2 A:31 Q:2"))
     return H
@@ -263,7 +308,9 @@ def gen(seed, tier):
     # queue decides who may be asked; more time steps so that its balance tick runs
     for _ in range(n // 4):
         cases.append(random_case(r, stats, nops=r.choice([20, 40, 80]), slots=True))
-    stats["random"] = n + n // 4 + n // 4
+    for _ in range(n // 8):
+        cases.append(priority_mid_case(r, stats))
+    stats["random"] = n + n // 4 + n // 4 + n // 8
     return cases, stats
 
 
